@@ -104,10 +104,14 @@ def check_flux(chk, seq, mode, speed, label):
 def real_runs(chk, rng):
     from pyroll.core import Profile, RollPass
     cases = [(2, None), (3, None), (3, 'draught'), (3, 'velocity')] + ([(4, 'draught'), (4, None), (2, 'velocity'), (4, 'velocity')] if chk.thorough else [])
+    int_round = [0]
     for n, spread in cases:
         for mode in ('backward', 'forward'):
             # histories: a fresh sequence; the same sequence solved again with another speed; the other direction afterwards
-            speeds = [rng.choice([1.0, 2.5]), rng.choice([1.5, 2.0])]
+            speeds = [rng.choice([1.0, 2.5, 3, 1]), rng.choice([1.5, 2.0, 2])]      # Python ints too: a speed of 3 is as good as 3.0
+            int_round[0] += 1
+            if int_round[0] % 3 == 1:
+                speeds = [3, 1]
             seq = make_sequence(n)
             ip = Profile.round(diameter=30e-3, temperature=1473.15, material=["C45", "steel"], length=1)
             ctx = [RollPass.Profile.flow_stress(flow_stress)]
